@@ -283,9 +283,9 @@ pub fn run(cfg: &Cfg) -> Report {
             let nanos = (r.next() % 1_000_000_000) as u32;
             let dt = chrono::DateTime::<chrono::Utc>::from_timestamp(secs, nanos).unwrap_or_default();
             let fixed = dt.with_timezone(&chrono::FixedOffset::east_opt(((r.next() % 24) as i32 - 12) * 3600).unwrap());
-            let m33 = nalgebra::SMatrix::<u8, 3, 3>::from_fn(|a, b| (a * 3 + b) as u8 ^ (k as u8));
+            let m33 = nalgebra::SMatrix::<u8, 3, 3>::from_fn(|a, b| ((a * 3 + b) as u8) ^ (k as u8));
             let m24 = nalgebra::SMatrix::<f32, 2, 4>::from_fn(|a, b| (a * 4 + b) as f32 * 0.5 - k as f32);
-            let m11 = nalgebra::SMatrix::<i16, 1, 1>::from_fn(|_, _| k as i16 - 7);
+            let m11 = nalgebra::SMatrix::<i16, 1, 1>::from_fn(|_, _| (k as i16).wrapping_sub(7));
             let mut hv = heapless_v0_8::Vec::<u16, 4>::new();
             for w in words.iter().take(4) {
                 let _ = hv.push(*w);
